@@ -41,6 +41,32 @@ fn build_base(seed: u64, n_target: usize, stranded: bool) -> BaseGraph<K, u16> {
     b
 }
 
+/// The same node set relocated so that the packed store straddles base offset 2^31 (32-bit
+/// offset arithmetic wraps there). The padding before it is never touched (zero pages).
+fn relocate_far(small: &BaseGraph<K, u16>) -> BaseGraph<K, u16> {
+    use debruijn::dna_string::{DnaString, PackedDnaStringSet};
+    let total: usize = (0..small.len()).map(|i| small.sequences.get(i).len()).sum();
+    let first = (1usize << 31) - total / 2 - 7;
+    let mut seq = DnaString::blank(first + total + 64);
+    let mut start = Vec::with_capacity(small.len());
+    let mut length = Vec::with_capacity(small.len());
+    let mut pos = first;
+    for i in 0..small.len() {
+        let s = small.sequences.get(i);
+        start.push(pos);
+        length.push(s.len() as u32);
+        for j in 0..s.len() {
+            seq.set_mut(pos + j, s.get(j));
+        }
+        pos += s.len();
+    }
+    let mut b: BaseGraph<K, u16> = BaseGraph::new(small.stranded);
+    b.sequences = PackedDnaStringSet { sequence: seq, start, length };
+    b.exts = small.exts.clone();
+    b.data = small.data.clone();
+    b
+}
+
 /// Digest of every answer of the graph over a reduced probe set; also checks lookups against the reference index.
 fn answers(g: &DebruijnGraph<K, u16>, idx: &RefIndex) -> Result<u64, String> {
     let mut d = Digest::new();
@@ -197,6 +223,50 @@ pub fn run(opts: &Opts) -> i32 {
                 "replay": format!("sim-std c19-large --seed {} --tier {}", opts.seed, opts.tier.as_str())});
             let _ = std::fs::write(&path, serde_json::to_string_pretty(&doc).unwrap());
             println!("violation check=c19-large class=parallel-vs-serial: {}", detail);
+            println!("VIOLATION property=C19 replay={}", path.display());
+            replay_files.push(path.display().to_string());
+        }
+    }
+    // ---- far-offset case: a modest node set whose packed store straddles base offset 2^31
+    {
+        let cs = derive(opts.seed, "c19-far", 0);
+        let small = build_base(cs, 3_000, false);
+        let base = relocate_far(&small);
+        let serial = base.clone().finish_serial();
+        let idx = RefIndex::build(&serial).expect("distinct terminal k-mers");
+        let mut outcome = "identical".to_string();
+        match answers(&serial, &idx) {
+            Ok(want) => {
+                for sz in [2usize, 16] {
+                    let pool = rayon::ThreadPoolBuilder::new().num_threads(sz).build().expect("pool");
+                    let b = base.clone();
+                    match guarded(|| pool.install(|| b.finish())) {
+                        Ok(g) => {
+                            evals += 1;
+                            progress.fetch_add(1, std::sync::atomic::Ordering::Relaxed);
+                            match answers(&g, &idx) {
+                                Ok(d) if d == want => {}
+                                Ok(_) => outcome = format!("finish() on a {}-thread pool answers differently from finish_serial() (store straddling offset 2^31)", sz),
+                                Err(e) => outcome = format!("pool size {}: {}", sz, e),
+                            }
+                        }
+                        Err((loc, msg)) => outcome = format!("finish() panicked at {}: {}", loc, msg),
+                    }
+                }
+            }
+            Err(e) => outcome = format!("serial build over a store straddling base offset 2^31: {}", e),
+        }
+        println!("[c19-large] far-offset case: {} nodes at packed offsets around 2^31: {}", serial.len(), outcome);
+        samples.push(json!({"case_seed": cs, "nodes": serial.len(), "store": "straddles base offset 2^31", "outcome": outcome}));
+        if outcome != "identical" {
+            violations += 1;
+            let _ = std::fs::create_dir_all(&opts.replay_dir);
+            let path = opts.replay_dir.join(format!("C19-c19-large-far-{}.json", cs));
+            let doc = json!({"property": "C19", "check": "c19-large", "engine": "S", "verif_seed": opts.seed, "case_seed": cs,
+                "violation": {"class": "lookup-inexact", "site": "finish / find_link on a packed store beyond 2^31 bases", "detail": outcome},
+                "replay": format!("sim-std c19-large --seed {} --tier {}", opts.seed, opts.tier.as_str())});
+            let _ = std::fs::write(&path, serde_json::to_string_pretty(&doc).unwrap());
+            println!("violation check=c19-large class=lookup-inexact: {}", doc["violation"]["detail"]);
             println!("VIOLATION property=C19 replay={}", path.display());
             replay_files.push(path.display().to_string());
         }
